@@ -1,13 +1,13 @@
 SPECIFICATION Spec
 CONSTANTS
-  DeepKinds <- MC_Deep
-  ShallowKinds <- MC_Shallow
+  DeepKinds <- MC_LargeDeepAll
+  ShallowKinds <- MC_LargeShallow
   StaticKinds <- MC_Static
-  Depth = 6
-  ShallowDepth = 4
-  Media = {"mem"}
-  Sizes = {"small"}
-  BigSaves = 1
+  Depth = 3
+  ShallowDepth = 2
+  Media = {"mem", "reader", "file", "alias", "over"}
+  Sizes = {"large"}
+  BigSaves = 2
   Variant = "faithful"
 INVARIANT TypeOK
 INVARIANT Stutter
